@@ -44,6 +44,8 @@ class FailDomain(ExactCollections, Domain):
     unpack_may_raise = False
     max_inline_depth = 7
 
+    owner = "HashClient"  # the class whose methods `self.<m>()` resolves to (the AWS subclass for C19.R6)
+
     def mark_imprecise(self, state, node):
         return state.set("#imprecise", 1)
 
@@ -57,6 +59,8 @@ class FailDomain(ExactCollections, Domain):
             return Opaque("class:" + name)
         if name in ("tuple", "list", "str", "bytes", "dict"):
             return Opaque("type:" + name)
+        if name == "_RE_AWS_ENDPOINT":
+            return Opaque("regex")
         return TOP
 
     def attr_load(self, objval, node, state):
@@ -71,9 +75,9 @@ class FailDomain(ExactCollections, Domain):
             return TOP
         if isinstance(objval, Opaque) and objval.tag.startswith("client:"):
             if node.attr == "server":
-                return Const(objval.tag[7:])
+                return state.get("#spec:" + objval.tag, Const(_srv(objval)))
             return BoundCall(objval, node.attr)
-        if objval == Opaque("hasher"):
+        if objval in (Opaque("hasher"), Opaque("regex")):
             return BoundCall(objval, node.attr)
         return TOP
 
@@ -99,6 +103,14 @@ class FailDomain(ExactCollections, Domain):
     def _ev(self, state, *e):
         return state.set("#ev", state.get("#ev", ()) + (tuple(e),))
 
+    def binop(self, node, l, r, state):
+        if isinstance(node.op, ast.Mod) and isinstance(l, Const) and isinstance(l.v, str) and isinstance(r, TupleV) and all(isinstance(x, Const) for x in r.items):
+            try:
+                return Const(l.v % tuple(x.v for x in r.items))  # "%s:%s" % (host, port)
+            except (TypeError, ValueError):
+                return TOP
+        return super().binop(node, l, r, state)
+
     def call(self, node, fval, args, kwargs, state):
         name = call_name(node)
         if name == "time.time":
@@ -112,6 +124,9 @@ class FailDomain(ExactCollections, Domain):
             if isinstance(v, Const) and isinstance(v.v, str):
                 names = [t.tag[5:] for t in (args[1].items if isinstance(args[1], TupleV) else [args[1]]) if isinstance(t, Opaque) and t.tag.startswith("type:")]
                 return [("ok", Const("str" in names), state)]
+            if isinstance(v, TupleV):
+                names = [t.tag[5:] for t in (args[1].items if isinstance(args[1], TupleV) else [args[1]]) if isinstance(t, Opaque) and t.tag.startswith("type:")]
+                return [("ok", Const("tuple" in names), state)]
             if isinstance(v, Opaque) and v.tag.startswith("K"):
                 return [("ok", Const(False), state)]  # the keys of the scenario are plain keys, not (server_key, key) pairs
             return [("ok", TOP, self.mark_imprecise(state, node))]
@@ -121,8 +136,15 @@ class FailDomain(ExactCollections, Domain):
             if fval.tag == "class:hasher":
                 return [("ok", Opaque("hasher"), state.set("#rotation", ()))]
             srv = args[0] if args else TOP
+            if isinstance(srv, TupleV) and len(srv.items) == 2 and all(isinstance(x, Const) for x in srv.items):
+                # a (host, port) spec: the client remembers it as given
+                n = state.get("#nclients", 0) + 1
+                tag = "client:%s:%s#%d" % (srv.items[0].v, srv.items[1].v, n)
+                return [("ok", Opaque(tag), state.set("#nclients", n).set("#spec:" + tag, srv))]
             if isinstance(srv, Const) and isinstance(srv.v, str):
-                return [("ok", Opaque("client:" + srv.v), state)]
+                # every client object has its own identity (a server can get a new client object later)
+                n = state.get("#nclients", 0) + 1
+                return [("ok", Opaque("client:%s#%d" % (srv.v, n)), state.set("#nclients", n))]
             return [("ok", TOP, self.mark_imprecise(state, node))]
         if isinstance(fval, BoundCall) and fval.obj == Opaque("hasher"):
             rot = state.get("#rotation", ())
@@ -139,10 +161,16 @@ class FailDomain(ExactCollections, Domain):
                         return [("ok", Const(s), state)]
                 return [("ok", NONE, state)]
             return [("ok", TOP, self.mark_imprecise(state, node))]
+        if isinstance(fval, BoundCall) and fval.obj == Opaque("regex"):
+            return [("ok", Opaque("match"), state)]
+        if name == "int" and len(args) == 1 and isinstance(args[0], Const):
+            return [("ok", Const(int(args[0].v)), state)]
+        if name == "self._get_nodes_list":
+            return [("ok", TupleV(tuple(Const(x) for x in state.get("#advertised", ()))), state)]
         if isinstance(fval, BoundCall) and isinstance(fval.obj, Opaque) and fval.obj.tag.startswith("client:"):
-            srv = fval.obj.tag[7:]
+            srv = _srv(fval.obj)
             if fval.attr in ("close", "quit"):
-                return [("ok", NONE, state)]
+                return [("ok", NONE, self._ev(state, "close", fval.obj.tag))]
             status = dict(state.get("#health", ())).get(srv, "ok")
             st = self._ev(state, "contact", srv, status)
             if status == "ok":
@@ -152,7 +180,7 @@ class FailDomain(ExactCollections, Domain):
         if r is not None:
             return r
         if name.startswith("self.") and name.count(".") == 1 and self.prog is not None:
-            m = self.prog.cls("HashClient").methods.get(name[5:])
+            m = self.prog.method(self.owner, name[5:], required=False)
             if m is not None:
                 # *list and **dict arguments that are heap objects are passed by content
                 args = list(args)
@@ -172,11 +200,23 @@ class FailDomain(ExactCollections, Domain):
                 res = self.inline(node, m, args, kwargs, state)
                 if res is not None:
                     return res
+        if isinstance(node.func, ast.Name) and self.prog is not None:
+            # a module-level helper of hash.py / aws_ec_client.py (e.g. an extracted legacy-argument normaliser)
+            for modrel in ("pymemcache/client/hash.py", "pymemcache/client/ext/aws_ec_client.py"):
+                mod = self.prog.modules.get(modrel)
+                if mod is not None and node.func.id in mod.functions:
+                    res = self.inline(node, mod.functions[node.func.id], args, kwargs, state)
+                    if res is not None:
+                        return res
         return [("ok", TOP, state)]
 
 
+def _srv(client):
+    return client.tag[7:].split("#")[0]
+
+
 def _keep(k):
-    return k.startswith("self.") or k in ("#rotation",)
+    return k.startswith("self.") or k.startswith("#spec:") or k in ("#rotation", "#nclients")
 
 
 def _normalise(carried, now):
@@ -281,101 +321,113 @@ def _explore(work):
             return sorted(reported.items()), undecided, n_states, n_calls[0]
         # explored state: (carried bookkeeping [times relative], health, failed-contact ages per server, servers that ever failed)
         seen = set()
-        init_state = (tuple(sorted(_normalise(start, T0).items(), key=str)), tuple((s, "ok") for s in servers), tuple((s, ()) for s in servers), frozenset())
-        frontier = [(init_state, ())]
-        seen.add(init_state)
-        for d in range(depth):
-            nxt = []
-            for (frozen, health_t, ages_t, ever), hist in frontier:
-                carried = dict(frozen)
-                health = dict(health_t)
-                ages = dict(ages_t)
-                where = "%s; after %s" % (cfg, ", ".join(hist) or "construction")
-                # (quick tier: only the first server's health changes - by symmetry of the two servers and keys nothing is
-                # lost for single-server failures; the thorough tier lets every server fail)
-                events = [("get", k) for k in keys] + [("tick", dt) for dt in (1, 15, 70)] + [("toggle", s) for s in (servers if thorough else servers[:1])]
-                for ev, arg in events:
-                    h2 = hist + ("%s(%s)" % (ev, arg),)
-                    if ev == "tick":
-                        # the clock moves: every recorded time gets older (the state stores ages through _normalise)
-                        c2 = _normalise(carried, T0 + arg)
-                        a2 = {s: tuple(min(a + arg, FAR) for a in ages[s]) for s in servers}
-                        st = (tuple(sorted(c2.items(), key=str)), health_t, tuple(sorted(a2.items())), ever)
-                    elif ev == "toggle":
-                        hl = dict(health)
-                        hl[arg] = kind if hl[arg] == "ok" else "ok"
-                        st = (frozen, tuple(sorted(hl.items())), ages_t, ever)
-                    else:
-                        failed_b, dead_b, rot_b = books(carried)
-                        res = operation(carried, health, T0, arg)
-                        if res is None:
-                            rule.undecided("HashClient._run_cmd:histories", "%s: %s does not have one exactly known outcome" % (where, h2[-1]))
-                            return sorted(reported.items()), undecided, n_states, n_calls[0]
-                        okind, val, contacts, c2 = res
-                        failed_a, dead_a, rot_a = books(c2)
-                        if failed_a is None or dead_a is None:
-                            rule.undecided("HashClient._run_cmd:histories", "%s: after %s the failover bookkeeping is not exactly known" % (where, h2[-1]))
-                            return sorted(reported.items()), undecided, n_states, n_calls[0]
-                        a2 = dict(ages)
-                        ever2 = set(ever)
-                        bad = False
-                        for _, srv, status in contacts:
-                            if status != "ok":
-                                a2[srv] = a2[srv] + (0,)
-                                ever2.add(srv)
-                            else:
-                                a2[srv] = ()  # the client has seen the server answer: a later failure starts a new episode
-                        # F1 bounded probing
-                        for srv in servers:
-                            if not a2[srv] or kind != "oserror":
-                                # (only connection-level failures - OSError, which includes time-outs - count as the
-                                # server failing; an error reply is the caller's business and changes no bookkeeping)
-                                continue
-                            in_rt = sum(1 for a in a2[srv] if a < RETRY_TIMEOUT)
-                            in_dt = sum(1 for a in a2[srv] if a < DEAD_TIMEOUT)
-                            if in_rt > 2:
-                                fail("probing:retry-window", "%s: with %s the failing server %s has been contacted %d times within %d s (retry_timeout); at most 2 are allowed" % (where, h2[-1], srv, in_rt, RETRY_TIMEOUT))
-                                bad = True
-                            if in_dt > R + 2:
-                                fail("probing:dead-window", "%s: with %s the failing server %s has been contacted %d times within %d s (dead_timeout); at most retry_attempts + 2 = %d are allowed" % (where, h2[-1], srv, in_dt, DEAD_TIMEOUT, R + 2))
-                                bad = True
-                            # F2 one failure does not evict
-                            if R >= 1 and len(a2[srv]) == 1 and srv in rot_b and srv not in rot_a:
-                                fail("eviction:single-failure", "%s: %s takes server %s out of rotation after a single failed contact although retry_attempts=%d" % (where, h2[-1], srv, R))
-                                bad = True
-                        # F3 / F4 who answers
-                        pref = [s for s in PREFS[arg] if s in servers]
-                        in_rot = [s for s in pref if s in rot_b]
-                        contacted = [c[1] for c in contacts]
-                        if pref[0] not in ever and pref[0] not in ever2 - set(ever) and health[pref[0]] == "ok":
-                            if contacted != [pref[0]] or okind != "ret" or val != Opaque("value:%s" % pref[0]):
-                                fail("bypass:healthy-server", "%s: %s is owned by server %s, which never failed, but the call contacts %s and %s" % (where, h2[-1], pref[0], contacted or "nobody", "returns %s" % (val,) if okind == "ret" else "raises %s" % val.cls))
-                                bad = True
-                        # (a dead server whose dead_timeout has run out may be revived by this very call: then it is asked)
-                        out_for_now = pref[0] in (dead_b or {}) and isinstance(dead_b[pref[0]], Const) and T0 - dead_b[pref[0]].v <= DEAD_TIMEOUT
-                        if out_for_now and in_rot and in_rot[0] != pref[0] and health[in_rot[0]] == "ok" and in_rot[0] not in (failed_b or {}):
-                            if contacted != [in_rot[0]] or okind != "ret" or val != Opaque("value:%s" % in_rot[0]):
-                                fail("reroute:not-served", "%s: the preferred server of %s is out of rotation; the call should be answered by %s, but it contacts %s and %s" % (where, h2[-1], in_rot[0], contacted or "nobody", "returns %s" % (val,) if okind == "ret" else "raises %s" % val.cls))
-                                bad = True
-                        # F5 what escapes
-                        if okind == "exc":
-                            own = isinstance(val.origin, str) and val.origin.startswith("contact:")
-                            alldown = val.cls == "MemcacheError" and not rot_b
-                            if ign:
-                                fail("escape:ignore_exc", "%s: %s raises %s although ignore_exc is set" % (where, h2[-1], val.cls))
-                                bad = True
-                            elif not own and not alldown:
-                                fail("escape:internal-error", "%s: %s raises %s, which is neither the contacted server's own error nor 'all servers down': an internal bookkeeping error reaches the caller" % (where, h2[-1], val.cls))
-                                bad = True
-                        if bad:
-                            continue
-                        st = (tuple(sorted(_normalise(c2, T0).items(), key=str)), health_t, tuple(sorted(a2.items())), frozenset(ever2))
-                    if st not in seen:
-                        seen.add(st)
-                        nxt.append((st, h2))
-            frontier = nxt
-            if not frontier:
-                break
+        # two explorations: every kind of event to depth 7, and - because the probing bounds speak about windows of
+        # dead_timeout, which take many steps to fill - a long one (depth 14) in which the first server fails from the
+        # start and never recovers and only its key is used, with clock steps just above retry_timeout
+        passes = [
+            (tuple((s, "ok") for s in servers), None, depth, ()),
+            (tuple((s, kind if s == servers[0] else "ok") for s in servers), [("get", keys[0]), ("tick", RETRY_TIMEOUT + 1)], 14, ("%s fails from the start" % servers[0],)),
+        ]
+        if kind != "oserror":
+            passes = passes[:1]
+        for health0, only_events, pass_depth, hist0 in passes:
+          init_state = (tuple(sorted(_normalise(start, T0).items(), key=str)), health0, tuple((s, ()) for s in servers), frozenset())
+          frontier = [(init_state, hist0)]
+          seen.add(init_state)
+          for d in range(pass_depth):
+              nxt = []
+              for (frozen, health_t, ages_t, ever), hist in frontier:
+                  carried = dict(frozen)
+                  health = dict(health_t)
+                  ages = dict(ages_t)
+                  where = "%s; after %s" % (cfg, ", ".join(hist) or "construction")
+                  # (quick tier: only the first server's health changes - by symmetry of the two servers and keys nothing is
+                  # lost for single-server failures; the thorough tier lets every server fail)
+                  events = [("get", k) for k in keys] + [("tick", dt) for dt in (1, 15, 70)] + [("toggle", s) for s in (servers if thorough else servers[:1])]
+                  if only_events is not None:
+                      events = only_events
+                  for ev, arg in events:
+                      h2 = hist + ("%s(%s)" % (ev, arg),)
+                      if ev == "tick":
+                          # the clock moves: every recorded time gets older (the state stores ages through _normalise)
+                          c2 = _normalise(carried, T0 + arg)
+                          a2 = {s: tuple(min(a + arg, FAR) for a in ages[s]) for s in servers}
+                          st = (tuple(sorted(c2.items(), key=str)), health_t, tuple(sorted(a2.items())), ever)
+                      elif ev == "toggle":
+                          hl = dict(health)
+                          hl[arg] = kind if hl[arg] == "ok" else "ok"
+                          st = (frozen, tuple(sorted(hl.items())), ages_t, ever)
+                      else:
+                          failed_b, dead_b, rot_b = books(carried)
+                          res = operation(carried, health, T0, arg)
+                          if res is None:
+                              rule.undecided("HashClient._run_cmd:histories", "%s: %s does not have one exactly known outcome" % (where, h2[-1]))
+                              return sorted(reported.items()), undecided, n_states, n_calls[0]
+                          okind, val, contacts, c2 = res
+                          failed_a, dead_a, rot_a = books(c2)
+                          if failed_a is None or dead_a is None:
+                              rule.undecided("HashClient._run_cmd:histories", "%s: after %s the failover bookkeeping is not exactly known" % (where, h2[-1]))
+                              return sorted(reported.items()), undecided, n_states, n_calls[0]
+                          a2 = dict(ages)
+                          ever2 = set(ever)
+                          bad = False
+                          for _, srv, status in contacts:
+                              if status != "ok":
+                                  a2[srv] = a2[srv] + (0,)
+                                  ever2.add(srv)
+                              else:
+                                  a2[srv] = ()  # the client has seen the server answer: a later failure starts a new episode
+                          # F1 bounded probing
+                          for srv in servers:
+                              if not a2[srv] or kind != "oserror":
+                                  # (only connection-level failures - OSError, which includes time-outs - count as the
+                                  # server failing; an error reply is the caller's business and changes no bookkeeping)
+                                  continue
+                              in_rt = sum(1 for a in a2[srv] if a < RETRY_TIMEOUT)
+                              in_dt = sum(1 for a in a2[srv] if a < DEAD_TIMEOUT)
+                              if in_rt > 2:
+                                  fail("probing:retry-window", "%s: with %s the failing server %s has been contacted %d times within %d s (retry_timeout); at most 2 are allowed" % (where, h2[-1], srv, in_rt, RETRY_TIMEOUT))
+                                  bad = True
+                              if in_dt > R + 2:
+                                  fail("probing:dead-window", "%s: with %s the failing server %s has been contacted %d times within %d s (dead_timeout); at most retry_attempts + 2 = %d are allowed" % (where, h2[-1], srv, in_dt, DEAD_TIMEOUT, R + 2))
+                                  bad = True
+                              # F2 one failure does not evict
+                              if R >= 1 and len(a2[srv]) == 1 and srv in rot_b and srv not in rot_a:
+                                  fail("eviction:single-failure", "%s: %s takes server %s out of rotation after a single failed contact although retry_attempts=%d" % (where, h2[-1], srv, R))
+                                  bad = True
+                          # F3 / F4 who answers
+                          pref = [s for s in PREFS[arg] if s in servers]
+                          in_rot = [s for s in pref if s in rot_b]
+                          contacted = [c[1] for c in contacts]
+                          if pref[0] not in ever and pref[0] not in ever2 - set(ever) and health[pref[0]] == "ok":
+                              if contacted != [pref[0]] or okind != "ret" or val != Opaque("value:%s" % pref[0]):
+                                  fail("bypass:healthy-server", "%s: %s is owned by server %s, which never failed, but the call contacts %s and %s" % (where, h2[-1], pref[0], contacted or "nobody", "returns %s" % (val,) if okind == "ret" else "raises %s" % val.cls))
+                                  bad = True
+                          # (a dead server whose dead_timeout has run out may be revived by this very call: then it is asked)
+                          out_for_now = pref[0] in (dead_b or {}) and isinstance(dead_b[pref[0]], Const) and T0 - dead_b[pref[0]].v <= DEAD_TIMEOUT
+                          if out_for_now and in_rot and in_rot[0] != pref[0] and health[in_rot[0]] == "ok" and in_rot[0] not in (failed_b or {}):
+                              if contacted != [in_rot[0]] or okind != "ret" or val != Opaque("value:%s" % in_rot[0]):
+                                  fail("reroute:not-served", "%s: the preferred server of %s is out of rotation; the call should be answered by %s, but it contacts %s and %s" % (where, h2[-1], in_rot[0], contacted or "nobody", "returns %s" % (val,) if okind == "ret" else "raises %s" % val.cls))
+                                  bad = True
+                          # F5 what escapes
+                          if okind == "exc":
+                              own = isinstance(val.origin, str) and val.origin.startswith("contact:")
+                              alldown = val.cls == "MemcacheError" and not rot_b
+                              if ign:
+                                  fail("escape:ignore_exc", "%s: %s raises %s although ignore_exc is set" % (where, h2[-1], val.cls))
+                                  bad = True
+                              elif not own and not alldown:
+                                  fail("escape:internal-error", "%s: %s raises %s, which is neither the contacted server's own error nor 'all servers down': an internal bookkeeping error reaches the caller" % (where, h2[-1], val.cls))
+                                  bad = True
+                          if bad:
+                              continue
+                          st = (tuple(sorted(_normalise(c2, T0).items(), key=str)), health_t, tuple(sorted(a2.items())), frozenset(ever2))
+                      if st not in seen:
+                          seen.add(st)
+                          nxt.append((st, h2))
+              frontier = nxt
+              if not frontier:
+                  break
         # F6 recovery, probed from every reached state
         for frozen in sorted({st[0] for st in seen}, key=str):
             carried = dict(frozen)
@@ -434,3 +486,313 @@ def failover_histories(prog, rule, tier):
     if not seen_f and not any(u for f_, u, s_, c_ in parts):
         rule.ok("every history of operations, clock steps and failures / recoveries up to depth 7 (%d bookkeeping states over 12 configurations): probing is bounded, one failure does not evict, keys of an evicted server are served by the next one, healthy servers are never bypassed, only the server's own error escapes, placement is restored after recovery" % n_states)
     return n_calls
+
+
+# =====================================================================================================================
+# C19.R6: AWSElastiCacheHashClient under histories of re-discoveries, failures and elapsed time
+# =====================================================================================================================
+class AwsDomain(FailDomain):
+    owner = "AWSElastiCacheHashClient"
+
+
+def reconfigure_histories(prog, rule, tier):
+    """The AWS client interpreted on a concrete cluster: the constructor (with the first advertised node list), then
+    every sequence of get(K) / reconfigure_nodes() with a new advertised list / a server starting or ceasing to fail /
+    70 s passing, to a depth bound.  After every re-discovery the rotation and the client table are exactly the
+    advertised nodes and every client object that was dropped has been closed, once, while no client still in use is
+    closed; every operation, at any later time, contacts an advertised node only - the preferred one in rotation - and
+    nothing but that node's own error (or 'all servers down') escapes."""
+    aws = prog.cls("AWSElastiCacheHashClient")
+    init = prog.method(aws, "__init__")
+    reconf = prog.method(aws, "reconfigure_nodes")
+    runcmd = prog.method(aws, "_run_cmd")
+    thorough = tier == "thorough"
+    lists = [("A", "B"), ("B",), ("A", "B", "C"), ("C", "A")] if thorough else [("A", "B"), ("B",), ("B", "C")]
+    keys = ("K1", "K2")
+    depth = 8 if thorough else 7
+    reported = set()
+    n_calls = [0]
+    total_states = 0
+
+    def fail(construct, msg, f):
+        if construct not in reported:
+            reported.add(construct)
+            rule.fail("AWSElastiCacheHashClient:" + construct, msg, fn=f, node=f.node)
+
+    def run(f, carried, extra, **argv):
+        dom = AwsDomain(prog, f)
+        env = dict(carried)
+        env.update(extra)
+        for p in f.params:
+            if p.name == "self":
+                continue
+            if p.name in argv:
+                env[p.name] = argv[p.name]
+            elif p.kind == "vararg":
+                env[p.name] = TupleV(())
+            elif p.kind == "kwarg":
+                from .colls import new_object
+
+                new_object(env, p.name, "dict", DictV(()))
+            elif p.has_default:
+                env[p.name] = Const(p.default.value) if isinstance(p.default, ast.Constant) else NONE
+            else:
+                env[p.name] = TOP
+        n_calls[0] += 1
+        return Interp(dom, f.node, prog).run(Env(env))
+
+    def table(carried, name):
+        v = carried.get("self." + name)
+        c = carried.get(("heap", v)) if isinstance(v, Ref) else None
+        return {k.v: x for k, x in c.items} if isinstance(c, DictV) and all(isinstance(k, Const) for k, x in c.items) else None
+
+    def one(outs, what):
+        rets, excs = outs.of("ret"), outs.of("exc")
+        if len(rets) + len(excs) != 1 or any(s.get("#imprecise", 0) for s, v, t in rets + excs):
+            rule.undecided("AWSElastiCacheHashClient:histories", "%s does not have one exactly known outcome (%d normal, %d raising)" % (what, len(rets), len(excs)))
+            return None
+        s2, v2, _ = (rets or excs)[0]
+        return ("ret" if rets else "exc"), v2, s2
+
+    def after_reconf(where, carried_before, s2, adv, f):
+        """The obligations of one re-discovery; -> carried state or None (reported)."""
+        c2 = carry_over(s2, _keep)
+        clients_a, rot = table(c2, "clients"), tuple(c2.get("#rotation", ()))
+        if clients_a is None:
+            rule.undecided("AWSElastiCacheHashClient:histories", "%s: the client table is not exactly known afterwards" % where)
+            return None
+        ok = True
+        if sorted(rot) != sorted(adv):
+            fail("rediscovery:rotation", "%s: the rotation is %s, the endpoint advertises %s: keys are routed to a node that is no longer (or not yet) part of the cluster" % (where, list(rot), list(adv)), f)
+            ok = False
+        if sorted(clients_a) != sorted(adv):
+            fail("rediscovery:clients", "%s: there are clients for %s, the endpoint advertises %s" % (where, sorted(clients_a), list(adv)), f)
+            ok = False
+        closed = [e[1] for e in s2.get("#ev", ()) if e[0] == "close"]
+        before = set(x.tag for x in (table(carried_before, "clients") or {}).values() if isinstance(x, Opaque))
+        now = set(x.tag for x in clients_a.values() if isinstance(x, Opaque))
+        for obj in sorted(before - now):
+            if closed.count(obj) != 1:
+                fail("rediscovery:dropped-client-not-closed", "%s: the client object %s is dropped from the table and closed %d time(s): its connection stays open (or is closed twice)" % (where, obj, closed.count(obj)), f)
+                ok = False
+        for obj in sorted(now):
+            if obj in closed:
+                fail("rediscovery:live-client-closed", "%s: the client object %s is closed although it is still the client of an advertised node" % (where, obj), f)
+                ok = False
+        return c2 if ok else None
+
+    for ign in (False, True):
+        cfg = "ignore_exc=%s" % ign
+        outs = run(init, {}, {"#clock": T0, "#advertised": lists[0], "#ev": ()}, cfg_node=Const("cluster.cfg.use1.cache.amazonaws.com:11211"), hasher=Opaque("class:hasher"), retry_attempts=Const(1), retry_timeout=Const(RETRY_TIMEOUT), dead_timeout=Const(DEAD_TIMEOUT), ignore_exc=Const(ign))
+        r = one(outs, "%s: the constructor" % cfg)
+        if r is None:
+            return None
+        if r[0] == "exc":
+            rule.undecided("AWSElastiCacheHashClient:histories", "%s: the constructor raises %s in the scenario" % (cfg, r[1].cls))
+            return None
+        start = after_reconf("%s: after construction with the advertised nodes %s" % (cfg, list(lists[0])), {}, r[2], lists[0], init)
+        if start is None:
+            continue
+        seen = set()
+        st0 = (tuple(sorted(_normalise(start, T0).items(), key=str)), lists[0], (("A", "ok"), ("B", "ok"), ("C", "ok")))
+        seen.add(st0)
+        frontier = [(st0, ())]
+        for d in range(depth):
+            nxt = []
+            for (frozen, adv, health_t), hist in frontier:
+                carried = dict(frozen)
+                health = dict(health_t)
+                where0 = "%s; after %s" % (cfg, ", ".join(hist) or "construction")
+                events = [("get", k) for k in keys] + [("tick", 70)] + [("toggle", "B")] + [("reconf", L) for L in lists if L != adv]
+                for ev, arg in events:
+                    h2 = hist + ("%s(%s)" % (ev, ",".join(arg) if isinstance(arg, tuple) else arg),)
+                    if ev == "tick":
+                        st = (tuple(sorted(_normalise(carried, T0 + arg).items(), key=str)), adv, health_t)
+                    elif ev == "toggle":
+                        hl = dict(health)
+                        hl[arg] = "oserror" if hl[arg] == "ok" else "ok"
+                        st = (frozen, adv, tuple(sorted(hl.items())))
+                    elif ev == "reconf":
+                        r = one(run(reconf, carried, {"#clock": T0, "#advertised": arg, "#health": health_t, "#ev": ()}), "%s: %s" % (where0, h2[-1]))
+                        if r is None:
+                            return None
+                        if r[0] == "exc":
+                            fail("rediscovery:raises", "%s: %s raises %s" % (where0, h2[-1], r[1].cls), reconf)
+                            continue
+                        c2 = after_reconf("%s: %s" % (where0, h2[-1]), carried, r[2], arg, reconf)
+                        if c2 is None:
+                            continue
+                        st = (tuple(sorted(_normalise(c2, T0).items(), key=str)), arg, health_t)
+                    else:
+                        rot_b = tuple(carried.get("#rotation", ()))
+                        dead_b = table(carried, "_dead_clients") or {}
+                        failed_b = table(carried, "_failed_clients") or {}
+                        r = one(run(runcmd, carried, {"#clock": T0, "#health": health_t, "#ev": ()}, cmd=Const("get"), key=Opaque(arg), default_val=Opaque("default")), "%s: %s" % (where0, h2[-1]))
+                        if r is None:
+                            return None
+                        okind, val, s2 = r
+                        contacted = [e[1] for e in s2.get("#ev", ()) if e[0] == "contact"]
+                        bad = False
+                        for srv in contacted:
+                            if srv not in adv:
+                                fail("routing:unadvertised-node", "%s: %s contacts node %s, which the endpoint no longer advertises (advertised: %s)" % (where0, h2[-1], srv, list(adv)), runcmd)
+                                bad = True
+                        if okind == "exc":
+                            own = isinstance(val.origin, str) and val.origin.startswith("contact:")
+                            alldown = val.cls == "MemcacheError"
+                            if ign or not (own or alldown):
+                                fail("routing:internal-error", "%s: %s raises %s, which is not the contacted node's own error%s" % (where0, h2[-1], val.cls, " (and ignore_exc is set)" if ign else ""), runcmd)
+                                bad = True
+                        pref = [x for x in PREFS[arg] if x in adv]
+                        if not bad and pref and health[pref[0]] == "ok" and pref[0] in rot_b and pref[0] not in dead_b and pref[0] not in failed_b and all(health[x] == "ok" for x in adv):
+                            if okind != "ret" or deref(val, s2) != Opaque("value:%s" % pref[0]):
+                                fail("routing:wrong-node", "%s: %s should be answered by %s, the preferred advertised node; it %s" % (where0, h2[-1], pref[0], "returns %s" % (deref(val, s2),) if okind == "ret" else "raises %s" % val.cls), runcmd)
+                                bad = True
+                        if bad:
+                            continue
+                        st = (tuple(sorted(_normalise(carry_over(s2, _keep), T0).items(), key=str)), adv, health_t)
+                    if st not in seen:
+                        seen.add(st)
+                        nxt.append((st, h2))
+            frontier = nxt
+            if not frontier:
+                break
+        total_states += len(seen)
+    rule.count("cluster states reached by re-discovery histories", total_states)
+    rule.count("AWS client calls interpreted", n_calls[0])
+    rule.floor("cluster states reached by re-discovery histories", total_states, 100)
+    if not reported:
+        rule.ok("every history of operations, re-discoveries (%d advertised lists), failures of a node and elapsed time up to depth %d (%d states): rotation and clients are exactly the advertised nodes, dropped clients are closed once, only advertised nodes are contacted" % (len(lists), depth, total_states))
+    return n_calls[0]
+
+
+def registration_rows(prog, rule):
+    """C12.R3's registration clause, decided by interpretation: after construction with two servers the client table and
+    the rotation hold exactly those two nodes, every key is answered by the client of its preferred server, and a server
+    that is removed and added again is answered by its own (new) client - whatever helpers do the bookkeeping."""
+    hc = prog.cls("HashClient")
+    init, runcmd, add, rem = (prog.method(hc, n) for n in ("__init__", "_run_cmd", "add_server", "remove_server"))
+
+    def run(f, carried, extra, **argv):
+        dom = FailDomain(prog, f)
+        env = dict(carried)
+        env.update(extra)
+        for p in f.params:
+            if p.name == "self":
+                continue
+            if p.name in argv:
+                env[p.name] = argv[p.name]
+            elif p.kind == "vararg":
+                env[p.name] = TupleV(())
+            elif p.kind == "kwarg":
+                from .colls import new_object
+
+                new_object(env, p.name, "dict", DictV(()))
+            elif p.has_default:
+                env[p.name] = Const(p.default.value) if isinstance(p.default, ast.Constant) else NONE
+            else:
+                env[p.name] = TOP
+        outs = Interp(dom, f.node, prog).run(Env(env))
+        rets, excs = outs.of("ret"), outs.of("exc")
+        if len(rets) != 1 or excs or rets[0][0].get("#imprecise", 0):
+            return None
+        return rets[0]
+
+    def table(carried):
+        v = carried.get("self.clients")
+        c = carried.get(("heap", v)) if isinstance(v, Ref) else None
+        return {k.v: x for k, x in c.items} if isinstance(c, DictV) and all(isinstance(k, Const) for k, x in c.items) else None
+
+    base = {"#clock": T0, "#health": (("A", "ok"), ("B", "ok")), "#ev": ()}
+    r = run(init, {}, base, servers=TupleV((Const("A"), Const("B"))), hasher=Opaque("class:hasher"), retry_attempts=Const(2), retry_timeout=Const(RETRY_TIMEOUT), dead_timeout=Const(DEAD_TIMEOUT), ignore_exc=Const(False))
+    if r is None:
+        rule.undecided("HashClient.add_server:registration", "the constructor with two servers does not have one exactly known outcome")
+        return
+    carried = carry_over(r[0], _keep)
+
+    def check(carried, what, servers):
+        tab, rot = table(carried), tuple(carried.get("#rotation", ()))
+        ok = tab is not None and sorted(tab) == sorted(rot) == sorted(servers) and all(isinstance(tab[s], Opaque) and _srv(tab[s]) == s for s in servers)
+        rule.expect(ok, "%s: clients and rotation are exactly %s, each node with the client built for it" % (what, list(servers)), "HashClient.add_server:registration", "%s: the client table is %s and the rotation %s; every server in rotation needs the client that was built for it under the name the hasher knows it by (routing looks the client up by that name)" % (what, {k: str(v) for k, v in (tab or {}).items()}, list(rot)), fn=add, node=add.node)
+        if not ok:
+            return False
+        for k in ("K1", "K2"):
+            rr = run(runcmd, carried, base, cmd=Const("get"), key=Opaque(k), default_val=Opaque("default"))
+            want = [s for s in PREFS[k] if s in servers][0]
+            got = [e[1] for e in rr[0].get("#ev", ()) if e[0] == "contact"] if rr is not None else None
+            rule.expect(got == [want], "%s: get(%s) is answered by the client of %s" % (what, k, want), "HashClient.add_server:registration", "%s: get(%s) contacts %s instead of the client of its server %s" % (what, k, got, want), fn=add, node=add.node)
+        return True
+
+    if not check(carried, "after HashClient([A, B])", ("A", "B")):
+        return
+    # out and in again: the failover path (remove_server needs a failure record to pop)
+    fc = carried.get("self._failed_clients")
+    r2 = run(prog.method(hc, "_mark_failed_server"), carried, base, server=Const("A"))
+    if r2 is not None:
+        c2 = carry_over(r2[0], _keep)
+        r3_ = run(rem, c2, base, server=Const("A"))
+        if r3_ is not None:
+            c3 = carry_over(r3_[0], _keep)
+            r4_ = run(add, c3, base, server=Const("A"))
+            if r4_ is not None:
+                check(carry_over(r4_[0], _keep), "after remove_server(A) and add_server(A)", ("A", "B"))
+                return
+    rule.undecided("HashClient.add_server:registration", "removing and re-adding a server does not have one exactly known outcome in the scenario")
+
+
+def node_name_rows(prog, rule):
+    """C11.R5: a server given as (host, port) is known to the hasher - and filed in the client table - under the one name
+    _make_client_key gives it, on the way in and on the way out."""
+    hc = prog.cls("HashClient")
+    init, add, rem, mck, mark = (prog.method(hc, n) for n in ("__init__", "add_server", "remove_server", "_make_client_key", "_mark_failed_server"))
+    spec = TupleV((Const("10.1.2.3"), Const(11211)))
+
+    def run(f, carried, **argv):
+        dom = FailDomain(prog, f)
+        env = dict(carried)
+        env.update({"#clock": T0, "#health": (), "#ev": ()})
+        for p in f.params:
+            if p.name == "self":
+                continue
+            if p.name in argv:
+                env[p.name] = argv[p.name]
+            elif p.kind == "vararg":
+                env[p.name] = TupleV(())
+            elif p.kind == "kwarg":
+                from .colls import new_object
+
+                new_object(env, p.name, "dict", DictV(()))
+            elif p.has_default:
+                env[p.name] = Const(p.default.value) if isinstance(p.default, ast.Constant) else NONE
+            else:
+                env[p.name] = TOP
+        outs = Interp(dom, f.node, prog).run(Env(env))
+        rets, excs = outs.of("ret"), outs.of("exc")
+        if len(rets) != 1 or excs or rets[0][0].get("#imprecise", 0):
+            return None
+        return rets[0]
+
+    r0 = run(init, {}, servers=TupleV(()), hasher=Opaque("class:hasher"), retry_attempts=Const(2), retry_timeout=Const(RETRY_TIMEOUT), dead_timeout=Const(DEAD_TIMEOUT), ignore_exc=Const(False))
+    rk = run(mck, {}, server=spec)
+    if r0 is None or rk is None or not isinstance(rk[1], Const):
+        rule.undecided("HashClient.add_server:node-name", "the constructor without servers / _make_client_key((host, port)) do not have exactly known outcomes")
+        return
+    name = rk[1].v
+    c0 = carry_over(r0[0], _keep)
+    r1 = run(add, c0, server=spec)
+    if r1 is None:
+        rule.undecided("HashClient.add_server:node-name", "add_server((host, port)) does not have one exactly known outcome")
+        return
+    c1 = carry_over(r1[0], _keep)
+    rot = tuple(c1.get("#rotation", ()))
+    v = c1.get("self.clients")
+    tab = c1.get(("heap", v)) if isinstance(v, Ref) else None
+    keys = [k.v if isinstance(k, Const) else str(k) for k, x in tab.items] if isinstance(tab, DictV) else None
+    rule.expect(rot == (name,) and keys == [name], "HashClient.add_server names the node by _make_client_key(server)", "HashClient.add_server:node-name", "after add_server(('10.1.2.3', 11211)) the rotation is %s and the client table has %s; both must hold exactly the name _make_client_key gives the server (%r): a server known under two spellings is two nodes" % (list(rot), keys, name), fn=add, node=add.node)
+    r2 = run(mark, c1, server=spec)
+    r3 = run(rem, carry_over(r2[0], _keep), server=spec) if r2 is not None else None
+    if r3 is None:
+        rule.undecided("HashClient.remove_server:node-name", "remove_server((host, port)) after a failure does not have one exactly known outcome")
+        return
+    rot3 = tuple(carry_over(r3[0], _keep).get("#rotation", ()))
+    rule.expect(rot3 == (), "HashClient.remove_server names the node by _make_client_key(server)", "HashClient.remove_server:node-name", "after remove_server(('10.1.2.3', 11211)) the rotation is %s: the node was not removed under the name it was added with" % list(rot3), fn=rem, node=rem.node)
